@@ -391,7 +391,9 @@ func runC14(c *Ctx) {
 				}
 			}
 			self := EqEdges(bdt, func(x, y ssa.Value) bool { return x == ssa.Value(u) && y == w || y == ssa.Value(u) && x == w })
-			t, path := PathAvoiding(bdt, u, func(in ssa.Instruction) bool { return isRet(in) || in == ssa.Instruction(u) || in.Block() != u.Block() && in.Block().Dominates(u.Block()) && in == in.Block().Instrs[0] && ReachesFrom(bdt, u, in) && strings.Contains(in.Block().Comment, "loop") }, func(in ssa.Instruction) bool {
+			t, path := PathAvoiding(bdt, u, func(in ssa.Instruction) bool {
+				return isRet(in) || in == ssa.Instruction(u) || in.Block() != u.Block() && in.Block().Dominates(u.Block()) && in == in.Block().Instrs[0] && ReachesFrom(bdt, u, in) && strings.Contains(in.Block().Comment, "loop")
+			}, func(in ssa.Instruction) bool {
 				for _, e := range evals {
 					if e == in {
 						return true
